@@ -1984,7 +1984,7 @@ def run_check(ctx, prop):
             ctx.disagree("client step %d" % k, ser_client(m, mc, fam, evs[:k + 1]), (impl + ["<end>"])[k][:600],
                          (model + ["<end>"])[k][:600], holds=not viol)
         for what, detail in viol:
-            if what in ("crash", "raised") and not all(fx[k] for k in ("F3", "F16")):
+            if (what == "crash" or what.startswith("raised")) and not all(fx[k] for k in ("F3", "F16")):
                 continue      # reported once through the defect witnesses
             ctx.violation(what, {"script": ser_client(m, mc, fam, evs), "detail": detail})
 
@@ -2483,7 +2483,8 @@ def crash_of_valid_script(method, evs, steps):
     """the events of the generated flow scripts are all well-formed, so no step of the real code may raise"""
     for i, st in enumerate(steps):
         if not st.startswith("OK "):
-            return [("raised", "step %d %r -> %s" % (i, evs[i][:2], st))]
+            return [("raised: a step of the real client code raised on a well-formed event script (step %d %r -> %s)"
+                     % (i, evs[i][:2], st[:120]), "step %d %r -> %s" % (i, evs[i][:2], st))]
     return []
 
 
